@@ -85,6 +85,24 @@ pub fn enrich(ms: &mut ModuleSet) {
                     ext: None,
                 }),
             });
+            // the same module-qualified reference in the other positions a type can take
+            let q = || Ty::Ref { module: Some(from.clone()), name: t.clone(), cons: vec![] };
+            ms.modules[i].items.push(Item::Type { name: format!("Qual-Of{i}"), tag: None, ty: Ty::SeqOf(OfTy { size: None, size_paren: false, etag: None, elem: Box::new(q()) }) });
+            ms.modules[i].items.push(Item::Type { name: format!("Qual-Set-Of{i}"), tag: None, ty: Ty::SetOf(OfTy { size: None, size_paren: false, etag: None, elem: Box::new(q()) }) });
+            ms.modules[i].items.push(Item::Type {
+                name: format!("Qual-Ch{i}"),
+                tag: None,
+                ty: Ty::Choice(Alts { root: vec![Comp { name: "q".into(), tag: None, ty: q(), opt: Opt::Req }, Comp { name: "r".into(), tag: None, ty: Ty::Null, opt: Opt::Req }], ext: None }),
+            });
+            ms.modules[i].items.push(Item::Type { name: format!("Qual-Al{i}"), tag: None, ty: q() });
+            ms.modules[i].items.push(Item::Type {
+                name: format!("Qual-Nest{i}"),
+                tag: None,
+                ty: Ty::Sequence(Fields {
+                    root: vec![Comp { name: "n".into(), tag: None, ty: Ty::SeqOf(OfTy { size: None, size_paren: false, etag: None, elem: Box::new(q()) }), opt: Opt::Optional }],
+                    ext: None,
+                }),
+            });
             syms.push(t);
         }
         match ms.modules[i].imports.iter_mut().find(|im| im.from == from) {
@@ -284,15 +302,44 @@ pub fn eval(ms0: &ModuleSet) -> Verdict {
                 };
             }
         }
-        // module-qualified references resolve to the sibling module
+        // module-qualified references resolve to the sibling module, in every position
         for it in &m.items {
-            if let Item::Type { name, ty: Ty::Sequence(f), .. } = it {
-                if let Some(Comp { ty: Ty::Ref { module: Some(qm), name: qn, .. }, .. }) = f.root.first() {
-                    let want = format!("super::{}::{}", snake_case(qm), title_case(qn));
-                    let ok = rm.find_struct(&title_case(name)).map_or(false, |s| s.fields.first().map_or(false, |fl| fl.ty == want || fl.ty == format!("Box<{want}>")));
-                    if !ok {
-                        return Verdict::Fail { key: "qualified".into(), finding: None, what: format!("module {}: {name}.q is not `{want}`", m.name), observed: json!(null), nontrivial };
+            let Item::Type { name, ty, .. } = it else { continue };
+            let rn = title_case(name);
+            let path = |qm: &str, qn: &str| format!("super::{}::{}", snake_case(qm), title_case(qn));
+            let strip = |t: &str| t.trim_start_matches("Option<").trim_start_matches("Box<").trim_end_matches('>').to_string();
+            let (want, got): (Option<String>, Option<String>) = match ty {
+                Ty::Sequence(f) => match f.root.first() {
+                    Some(Comp { ty: Ty::Ref { module: Some(qm), name: qn, .. }, .. }) => (Some(path(qm, qn)), rm.find_struct(&rn).and_then(|s| s.fields.first().map(|fl| strip(&fl.ty)))),
+                    Some(Comp { ty: Ty::SeqOf(o), .. }) => match &*o.elem {
+                        Ty::Ref { module: Some(qm), name: qn, .. } => (Some(format!("SequenceOf<{}", path(qm, qn))), rm.find_struct(&rn).and_then(|s| s.fields.first().map(|fl| strip(&fl.ty)))),
+                        _ => (None, None),
+                    },
+                    _ => (None, None),
+                },
+                Ty::Choice(a) => match a.root.first() {
+                    Some(Comp { ty: Ty::Ref { module: Some(qm), name: qn, .. }, .. }) => (Some(path(qm, qn)), rm.find_enum(&rn).and_then(|e| e.variants.first().and_then(|v| v.payload.first().map(|p| strip(p))))),
+                    _ => (None, None),
+                },
+                Ty::SeqOf(o) | Ty::SetOf(o) => match &*o.elem {
+                    Ty::Ref { module: Some(qm), name: qn, .. } => {
+                        let w = if matches!(ty, Ty::SeqOf(_)) { "SequenceOf" } else { "SetOf" };
+                        (Some(format!("{w}<{}", path(qm, qn))), rm.find_struct(&rn).and_then(|s| s.fields.first().map(|fl| strip(&fl.ty))))
                     }
+                    _ => (None, None),
+                },
+                Ty::Ref { module: Some(qm), name: qn, .. } => (Some(path(qm, qn)), rm.find_struct(&rn).and_then(|s| s.fields.first().map(|fl| strip(&fl.ty)))),
+                _ => (None, None),
+            };
+            if let Some(want) = want {
+                if got.as_deref() != Some(want.as_str()) {
+                    return Verdict::Fail {
+                        key: "qualified".into(),
+                        finding: None,
+                        what: format!("module {}: the module-qualified reference in {name} is rendered as {got:?}, expected `{want}` (modulo Option/Box)", m.name),
+                        observed: json!(null),
+                        nontrivial,
+                    };
                 }
             }
         }
